@@ -426,6 +426,7 @@ func main() {
 	}
 	tokCases(gen.New(), thorough)
 	logAppendCases(thorough)
+	controlCases(thorough)
 	expiredCases(r, thorough)
 	readerCases(r, thorough)
 }
